@@ -373,10 +373,12 @@ class CuckooFilter:
         # and move things around to the other index, if possible, until we
         # either move everything around or hit the maximum number of swaps
         idx = random.choice([idx_1, idx_2])
+        swaps = []  # (bucket, slot) of every kick, so that a failed insertion can be undone
 
         for _ in range(self.max_swaps):
             # select one element to be swapped out...
             swap_elm = random.randint(0, self.bucket_size - 1)
+            swaps.append((idx, swap_elm))
 
             swb = self.buckets[idx][swap_elm]
             fingerprint, self.buckets[idx][swap_elm] = swb, fingerprint
@@ -390,7 +392,10 @@ class CuckooFilter:
                 self._inserted_elements += 1
                 return None
 
-        # if we got here we have an error... we might need to know what is left
+        # if we got here we have an error; put every kicked out fingerprint back where it was so
+        # that nothing already stored is lost, which leaves the fingerprint we were asked to insert
+        for idx, swap_elm in reversed(swaps):
+            fingerprint, self.buckets[idx][swap_elm] = self.buckets[idx][swap_elm], fingerprint
         return fingerprint
 
     def _load(self, file: Union[Path, str, IOBase, mmap, bytes]) -> None:
